@@ -169,7 +169,8 @@ def os_error(interp, op, path=None, clsname='OSError'):
     return e
 
 
-def mutating(interp, op, args, touched, label=None, can_fail=True):
+def mutating(interp, op, args, touched, label=None, can_fail=True,
+             atomic=True):
     """fork a mutating primitive into ok / fail; returns the Event (ok) or
     raises PyExc(OSError) after recording the failed event."""
     fs = fs_of(interp)
@@ -180,7 +181,10 @@ def mutating(interp, op, args, touched, label=None, can_fail=True):
     hook = ctx.ghost.get('fault_hook')
     n = 2 if (can_fail and not fs.fault_free) else 1
     d = ctx.choose(n, label or op)
-    pre, post = fs.step(touched)
+    if d == 0 or not atomic:
+        pre, post = fs.step(touched)
+    else:
+        pre = post = fs.sigma   # a failed atomic primitive changes nothing
     if d == 0:
         ev = fs.record(Event(op, args, True, pre=pre, post=post))
         return ev
@@ -274,6 +278,8 @@ def m_listdir(I_, a, k):
 
 
 def listdir_element_axioms(ctx, x):
+    spec.mark_noslash(ctx, x)
+    spec.mark_nonempty(ctx, x)
     ctx.assume(z3.Not(z3.Contains(x, spec.SLASH)))
     ctx.assume(z3.And(x != spec.EMPTY, x != z3.StringVal('.'),
                       x != z3.StringVal('..')))
@@ -283,7 +289,7 @@ def m_makedirs(I_, a, k):
     p = z3str(a[0])
     mode = a[1] if len(a) > 1 else k.get('mode', 0o777)
     fs = fs_of(I_)
-    ev = mutating(I_, 'makedirs', [p, mode], [p], 'makedirs')
+    ev = mutating(I_, 'makedirs', [p, mode], [p], 'makedirs', atomic=False)
     # success: path is now a directory
     I_.ctx.assume(fs.kind(p) == DIR)
     I_.ctx.assume(fs.lkind(p) == DIR)
@@ -315,7 +321,7 @@ def m_open(I_, a, k):
     if excl:
         # exclusive create fails whenever the name is taken (EEXIST)
         if ctx.branch(pre_lk != ABSENT, 'open-excl-taken'):
-            pre, post = fs.step([])
+            pre = post = fs.sigma
             e = os_error(I_, 'open', a[0], 'FileExistsError')
             ctx.assume(e.attrs['errno'].t == 17)
             ev = fs.record(Event('open', [p, flags, mode], False,
@@ -363,7 +369,7 @@ def m_remove(I_, a, k):
     pre_lk = fs.lkind(p)
     # unlink(2) fails on directories and missing names
     if ctx.branch(z3.Or(pre_lk == ABSENT, pre_lk == DIR), 'remove-cannot'):
-        pre, post = fs.step([])
+        pre = post = fs.sigma
         e = os_error(I_, 'remove', a[0])
         ev = fs.record(Event('remove', [p], False, errno=e.attrs['errno'].t,
                              pre=pre, post=post))
@@ -383,7 +389,7 @@ def m_rename(I_, a, k):
     pre_src = fs.lkind(src)
     pre_dst = fs.lkind(dst)
     if ctx.branch(pre_src == ABSENT, 'rename-src-missing'):
-        pre, post = fs.step([])
+        pre = post = fs.sigma
         e = os_error(I_, 'rename', a[0], 'FileNotFoundError')
         ev = fs.record(Event('rename', [src, dst], False,
                              errno=e.attrs['errno'].t, pre=pre, post=post))
@@ -407,7 +413,7 @@ def m_rmtree(I_, a, k):
                            'not follow inner links, may fail part-way')
     pre_lk = fs.lkind(p)
     if ctx.branch(pre_lk != DIR, 'rmtree-notdir'):
-        pre, post = fs.step([])
+        pre = post = fs.sigma
         e = os_error(I_, 'rmtree', a[0])
         ev = fs.record(Event('rmtree', [p], False, errno=e.attrs['errno'].t,
                              pre=pre, post=post))
@@ -415,7 +421,7 @@ def m_rmtree(I_, a, k):
         ev.extra['pre_lkind'] = pre_lk
         raise PyExc(e)
     try:
-        ev = mutating(I_, 'rmtree', [p], [p], 'rmtree')
+        ev = mutating(I_, 'rmtree', [p], [p], 'rmtree', atomic=False)
     except PyExc:
         fs.events[-1].extra['partial'] = True
         fs.events[-1].extra['pre_lkind'] = pre_lk
@@ -445,7 +451,7 @@ def m_shutil_move(I_, a, k):
         if ctx.branch(fs.kind(dst) != ABSENT, 'move-realdst-exists'):
             e = I_.make_exc('OSError', 'already exists')
             e.cls = I_.lib.exc_classes['shutil.Error']
-            pre, post = fs.step([])
+            pre = post = fs.sigma
             ev = fs.record(Event('move-refused', [src, dst], False, pre=pre,
                                  post=post))
             raise PyExc(e)
@@ -464,12 +470,13 @@ def m_shutil_move(I_, a, k):
         e.cls = I_.lib.exc_classes['shutil.Error']
         raise PyExc(e)
     try:
-        ev = mutating(I_, 'copy', [src, dst], [dst], 'move-copy')
+        ev = mutating(I_, 'copy', [src, dst], [dst], 'move-copy', atomic=False)
     except PyExc:
         fs.events[-1].extra['partial'] = True
         raise
     try:
-        ev = mutating(I_, 'delete-src', [src], [src], 'move-delete')
+        ev = mutating(I_, 'delete-src', [src], [src], 'move-delete',
+                      atomic=False)
     except PyExc:
         fs.events[-1].extra['partial'] = True
         raise
@@ -503,7 +510,9 @@ def open_model(I_, a, k):
     f = Obj(I_.lib.object_cls)
     f.attrs['__fsfile__'] = FileV(p, mode, fs.sigma)
     if 'r' in mode:
+        sg0 = fs.sigma
         if not fs.fault_free and ctx.choose(2, 'open-read') == 1:
+            ctx.events.append(('read', p, sg0, False, filetext_f(sg0, p)))
             raise PyExc(os_error(I_, 'open', path))
         ctx.assume(fs.kind(p) != ABSENT)
 
@@ -512,11 +521,13 @@ def open_model(I_, a, k):
             c.used_axioms.add('text-mode read: returns the decoded content or '
                               'raises UnicodeDecodeError / OSError')
             d = c.choose(3 if not fs.fault_free else 2, 'read-outcome')
+            txt = filetext_f(sg0, p)
+            c.events.append(('read', p, sg0, d == 0, txt))
             if d == 1:
                 raise PyExc(I2.make_exc('UnicodeDecodeError', 'invalid byte'))
             if d == 2:
                 raise PyExc(os_error(I2, 'read', path))
-            return mk(filetext_f(fs.sigma, p))
+            return mk(txt)
         f.attrs['read'] = Builtin('file.read', read)
     else:
         mutating(I_, 'open-write', [p, mode], [p], 'open-write')
